@@ -315,6 +315,20 @@ func returnsFreshLiteralDepth(fi *FuncInfo, depth int) bool {
 		if litOf(e) != nil {
 			return true
 		}
+		// new(T) / make(T, …): fresh storage (cfg := new(Config); cfg.X = …; return cfg)
+		if c, isC := e.(*ast.CallExpr); isC {
+			if id, ok := unparen(c.Fun).(*ast.Ident); ok {
+				if b, isB := info.Uses[id].(*types.Builtin); isB && (b.Name() == "new" || b.Name() == "make") {
+					return true
+				}
+			}
+		}
+		// &v of a local declared in this function (var cfg Config; …; return &cfg)
+		if u, isU := e.(*ast.UnaryExpr); isU && u.Op == token.AND {
+			if o, ok := objOf(info, u.X).(*types.Var); ok && !o.IsField() && fi.Decl.Body.Pos() <= o.Pos() && o.Pos() < fi.Decl.Body.End() {
+				return true
+			}
+		}
 		if c, isC := e.(*ast.CallExpr); isC && depth > 0 && theWorld != nil {
 			if cal := callee(info, c); cal != nil {
 				if t := theWorld.Decls[cal]; t != nil && t.Pkg == fi.Pkg {
@@ -441,6 +455,9 @@ func ruleCheckInsertAgreement(w *World, r *Report, rule string) {
 	iinfo := ins.Pkg.TypesInfo
 	cinfo := rg.check.Pkg.TypesInfo
 	param := func(fi *FuncInfo) types.Object {
+		if o := descriptorParam(fi); o != nil {
+			return o
+		}
 		if len(fi.Decl.Type.Params.List) > 0 && len(fi.Decl.Type.Params.List[0].Names) > 0 {
 			return fi.Pkg.TypesInfo.Defs[fi.Decl.Type.Params.List[0].Names[0]]
 		}
